@@ -417,13 +417,35 @@ theorem foldl_dset_fresh (ks : List Name) : ∀ (vs : List Name) (rm : List (Nam
         · exact hk k' (mem_cons_of_mem _ hk') hin
         · subst hin; exact (nodup_cons.mp hnd).1 hk'
 
+theorem mem_keys_foldl_dset (l : List Name) : ∀ (d : Seen) (k : Name),
+    k ∈ keys (l.foldl (fun d n => dset n 1 d) d) ↔ k ∈ l ∨ k ∈ keys d := by
+  induction l with
+  | nil => intro d k; simp
+  | cons a l ih =>
+    intro d k
+    simp only [foldl_cons, ih, mem_keys_dset, mem_cons]
+    constructor
+    · rintro (h | h | h)
+      · exact Or.inl (Or.inr h)
+      · exact Or.inl (Or.inl h)
+      · exact Or.inr h
+    · rintro ((h | h) | h)
+      · exact Or.inr (Or.inl h)
+      · exact Or.inl h
+      · exact Or.inr (Or.inr h)
+
+/-- the initial `seen` holds exactly the names of the glyphs that are not renamed -/
+theorem keys_seenInit (i : Input) (k : Name) : k ∈ unrenamed i ↔ k ∈ keys (seenInit i) := by
+  unfold seenInit unrenamed
+  rw [mem_keys_foldl_dset]; simp [keys]
+
 /-- with distinct glyph names the rename map is exactly (covered glyph ↦ its unique name) -/
 theorem buildProductionNames_eq (i : Input) (h : i.order.Nodup) :
     buildProductionNames i =
-      (cov i i.order).zip (uniqueAll ((cov i i.order).map (validName i)) []) := by
+      (cov i i.order).zip (uniqueAll ((cov i i.order).map (validName i)) (seenInit i)) := by
   unfold buildProductionNames
   rw [buildLoop_eq]
-  have := foldl_dset_fresh (cov i i.order) (uniqueAll ((cov i i.order).map (validName i)) []) []
+  have := foldl_dset_fresh (cov i i.order) (uniqueAll ((cov i i.order).map (validName i)) (seenInit i)) []
     (by unfold cov; exact h.filter _) (by simp [keys])
   simpa using this
 
@@ -478,7 +500,7 @@ theorem mem_zip_map_self (f : Name → Name) (l : List Name) (p : Name × Name)
 
 theorem covered_final (i : Input) (h : i.order.Nodup) :
     (covered i (finalOrder i)).map (·.1) = cov i i.order ∧
-    (covered i (finalOrder i)).map (·.2) = uniqueAll ((cov i i.order).map (validName i)) [] := by
+    (covered i (finalOrder i)).map (·.2) = uniqueAll ((cov i i.order).map (validName i)) (seenInit i) := by
   unfold covered finalOrder
   rw [zip_map_filter]
   simp only [map_map]
@@ -527,7 +549,7 @@ theorem specCand_legal (i : Input) (g : Name) : legalName (specCand i g) = true 
     whose glyph names are distinct, the model's final glyph order satisfies the per-glyph predicate. -/
 theorem C11_renamed (i : Input) (h : i.order.Nodup) : holdsRenamed i (finalOrder i) = true := by
   obtain ⟨h1, h2⟩ := covered_final i h
-  unfold holdsRenamed
+  unfold holdsRenamed holdsRenamedFrom
   simp only [Bool.and_eq_true]
   refine ⟨⟨⟨by simp [finalOrder], ?_⟩, ?_⟩, ?_⟩
   · rw [all_eq_true]
@@ -548,7 +570,7 @@ theorem C11_renamed (i : Input) (h : i.order.Nodup) : holdsRenamed i (finalOrder
     have e2 : (cov i i.order).map (validName i) = (cov i i.order).map (specCand i) :=
       map_congr_left (fun g _ => validName_eq i g)
     rw [e2]
-    exact uniqueAll_ok _ [] [] (by simp [keys])
+    exact uniqueAll_ok _ (seenInit i) (unrenamed i) (keys_seenInit i)
   · rw [all_eq_true]
     intro p hp
     have : p.2 ∈ (covered i (finalOrder i)).map (·.2) := mem_map.mpr ⟨p, hp, rfl⟩
@@ -558,34 +580,87 @@ theorem C11_renamed (i : Input) (h : i.order.Nodup) : holdsRenamed i (finalOrder
     obtain ⟨g, _, rfl⟩ := mem_map.mp hc
     rw [validName_eq]; exact specCand_legal i g
 
-/-- **C11_distinct**: when every glyph of the font is in the glyph set given to the post-processor
-    (always the case for static fonts: the compiler adds '.notdef' to that very glyph set), the final
-    glyph names are pairwise distinct. -/
-theorem C11_distinct (i : Input) (h : i.order.Nodup) (hc : covers i = true) :
-    holdsDistinct (finalOrder i) = true := by
-  obtain ⟨_, h2⟩ := covered_final i h
-  have hall : cov i i.order = i.order := by
-    unfold cov; rw [filter_eq_self]; simpa [covers] using hc
-  have hcovd : covered i (finalOrder i) = i.order.zip (finalOrder i) := by
-    unfold covered; rw [filter_eq_self]
-    intro p hp
-    have : p.1 ∈ i.order := (of_mem_zip hp).1
-    simp only [covers, all_eq_true] at hc
-    exact hc _ this
-  have hfin : finalOrder i = uniqueAll (i.order.map (validName i)) [] := by
-    rw [← hall, ← h2, hcovd]
-    rw [map_snd_zip]
-    simp [finalOrder]
-  simp only [holdsDistinct, decide_eq_true_eq]
-  rw [hfin]; exact C11_unique _ _
+theorem nodup_map_inj (f : Name → Name) (l : List Name) (h : (l.map f).Nodup) :
+    ∀ a ∈ l, ∀ b ∈ l, f a = f b → a = b := by
+  induction l with
+  | nil => intro a ha; simp at ha
+  | cons x l ih =>
+    simp only [map_cons, nodup_cons, mem_map, not_exists, not_and] at h
+    intro a ha b hb e
+    rcases mem_cons.mp ha with ha' | ha' <;> rcases mem_cons.mp hb with hb' | hb'
+    · rw [ha', hb']
+    · rw [ha'] at e; exact absurd e.symm (h.1 b hb')
+    · rw [hb'] at e; exact absurd e (h.1 a ha')
+    · exact ih h.2 a ha' b hb' e
 
-/-- the hypothesis of `C11_distinct` is needed: a glyph that is NOT in the glyph set keeps its name and
-    is not recorded in `seen`, so a renamed glyph may take the same name (variable-font builds pass the
-    default source as glyph set, which lacks the synthesised '.notdef').  Model-level witness. -/
-theorem C11_distinct_needs_cover :
-    ∃ i : Input, i.order.Nodup ∧ covers i = false ∧ holdsDistinct (finalOrder i) = false :=
+/-- what the renaming does to one glyph of the font: an unsourced glyph keeps its name, which is
+    reserved; a sourced glyph gets one of the names given out, none of which is reserved -/
+theorem applyMap_cases (i : Input) (h : i.order.Nodup) (a : Name) (ha : a ∈ i.order) :
+    (inGs i.glyphSet a = false ∧ applyMap (buildProductionNames i) a = a ∧ a ∈ keys (seenInit i)) ∨
+    (inGs i.glyphSet a = true ∧ a ∈ cov i i.order ∧
+      applyMap (buildProductionNames i) a ∈ uniqueAll ((cov i i.order).map (validName i)) (seenInit i)) := by
+  by_cases hg : inGs i.glyphSet a = true
+  · right
+    have hc : a ∈ cov i i.order := mem_filter.mpr ⟨ha, hg⟩
+    refine ⟨hg, hc, ?_⟩
+    have hm := map_alookup_zip (cov i i.order) (uniqueAll ((cov i i.order).map (validName i)) (seenInit i))
+      (by unfold cov; exact h.filter _) (by simp [uniqueAll_length])
+    rw [← hm]
+    unfold applyMap
+    rw [buildProductionNames_eq i h]
+    exact mem_map.mpr ⟨a, hc, rfl⟩
+  · left
+    have hg' : inGs i.glyphSet a = false := by simpa using hg
+    have hnc : a ∉ cov i i.order := fun hin => hg (mem_filter.mp hin).2
+    refine ⟨hg', ?_, ?_⟩
+    · unfold applyMap
+      rw [buildProductionNames_eq i h, alookup_zip_of_not_mem _ _ _ hnc]; rfl
+    · exact (keys_seenInit i a).mp (mem_filter.mpr ⟨ha, by simp [hg']⟩)
+
+/-- **C11_perm_injective**: for ANY glyph order with distinct names and ANY glyph set - including
+    glyphs the post-processor has no source for, such as a synthesised '.notdef' - the renaming is
+    injective on the glyphs of the font: no two glyphs end up with the same name. -/
+theorem C11_perm_injective (i : Input) (h : i.order.Nodup) :
+    ∀ a ∈ i.order, ∀ b ∈ i.order,
+      applyMap (buildProductionNames i) a = applyMap (buildProductionNames i) b → a = b := by
+  have hm := map_alookup_zip (cov i i.order) (uniqueAll ((cov i i.order).map (validName i)) (seenInit i))
+    (by unfold cov; exact h.filter _) (by simp [uniqueAll_length])
+  have hnd := C11_unique ((cov i i.order).map (validName i)) (seenInit i)
+  have hfresh := uniqueAll_fresh ((cov i i.order).map (validName i)) (seenInit i)
+  have hinj := nodup_map_inj (fun k => (alookup k ((cov i i.order).zip
+      (uniqueAll ((cov i i.order).map (validName i)) (seenInit i)))).getD k) (cov i i.order) (by rw [hm]; exact hnd)
+  intro a ha b hb e
+  rcases applyMap_cases i h a ha with ⟨_, ea, ka⟩ | ⟨_, ca, ma⟩ <;>
+    rcases applyMap_cases i h b hb with ⟨_, eb, kb⟩ | ⟨_, cb, mb⟩
+  · rw [ea, eb] at e; exact e
+  · rw [ea] at e; rw [← e] at mb; exact absurd ka (hfresh _ mb)
+  · rw [eb] at e; rw [e] at ma; exact absurd kb (hfresh _ ma)
+  · apply hinj a ca b cb
+    have := e
+    unfold applyMap at this
+    rw [buildProductionNames_eq i h] at this
+    exact this
+
+/-- **C11_distinct**: for ANY glyph order with distinct names and ANY glyph set, the final glyph names
+    are pairwise distinct (no side condition on unsourced glyphs any more: their names are reserved). -/
+theorem C11_distinct (i : Input) (h : i.order.Nodup) : holdsDistinct (finalOrder i) = true := by
+  have hnd : (finalOrder i).Nodup := by
+    unfold finalOrder Nodup
+    rw [pairwise_map]
+    refine Pairwise.imp_of_mem ?_ h
+    intro a b ha hb hne e
+    exact hne (C11_perm_injective i h a ha b hb e)
+  exact decide_eq_true hnd
+
+/-- the OLD function (`seen = {}`) did not have this property: a glyph that is not in the glyph set
+    kept its name without being recorded, so a renamed glyph could take the same name (variable-font
+    builds pass the default source as glyph set, which lacks the synthesised '.notdef').  The new
+    function gives the second glyph `.notdef.1`. -/
+theorem C11_old_collision :
+    ∃ i : Input, i.order.Nodup ∧ holdsDistinct (finalOrderOld i) = false ∧ holdsDistinct (finalOrder i) = true ∧
+      finalOrder i = [".notdef".toList, ".notdef.1".toList] :=
   ⟨{ order := [".notdef".toList, "a".toList], glyphSet := [("a".toList, none)],
-     psNames := some [("a".toList, ".notdef".toList)] }, by decide, by decide, by decide⟩
+     psNames := some [("a".toList, ".notdef".toList)] }, by decide, by decide, by decide, by decide⟩
 
 /-! ### string splitting: the Python-shaped model functions against their declarative reading -/
 
@@ -1083,27 +1158,6 @@ theorem C11_perm_charStrings (rm : List (Name × Name)) (order : List Name) (cs 
   rw [e, foldl_dset_pairs _ [] (by simp only [keys, map_map] at h ⊢; exact h) (by simp [keys])]
   simp
 
-theorem nodup_map_inj (f : Name → Name) (l : List Name) (h : (l.map f).Nodup) :
-    ∀ a ∈ l, ∀ b ∈ l, f a = f b → a = b := by
-  induction l with
-  | nil => intro a ha; simp at ha
-  | cons x l ih =>
-    simp only [map_cons, nodup_cons, mem_map, not_exists, not_and] at h
-    intro a ha b hb e
-    rcases mem_cons.mp ha with ha' | ha' <;> rcases mem_cons.mp hb with hb' | hb'
-    · rw [ha', hb']
-    · rw [ha'] at e; exact absurd e.symm (h.1 b hb')
-    · rw [hb'] at e; exact absurd e (h.1 a ha')
-    · exact ih h.2 a ha' b hb' e
-
-/-- the renaming is injective on the glyphs of the font (so no two glyphs are merged) -/
-theorem C11_perm_injective (i : Input) (h : i.order.Nodup) (hc : covers i = true) :
-    ∀ a ∈ i.order, ∀ b ∈ i.order,
-      applyMap (buildProductionNames i) a = applyMap (buildProductionNames i) b → a = b := by
-  have hd : (finalOrder i).Nodup := of_decide_eq_true (C11_distinct i h hc)
-  intro a ha b hb e
-  exact nodup_map_inj _ _ hd a ha b hb e
-
 /-- What "every other table is byte-identical" rests on: a table compiler that sees glyph names only
     through their index (hypothesis `indexBased`, a statement about fontTools that is MEASURED on every
     generated font, not proved) produces the same bytes before and after renaming, because renaming
@@ -1137,7 +1191,7 @@ theorem processOk_eq (s : Switches) (i : Input) (before : Nat) :
   · simp only [processOk, hr, finalOrder]
   · rw [← hp']; rfl
 
-/-- without the coverage hypothesis everything except global distinctness still holds -/
+/-- the components of the output predicate one by one -/
 theorem C11_output_partial (s : Switches) (i : Input) (before : Nat) (h : i.order.Nodup) :
     (if specRename s then holdsRenamed i (processOk s i before).order
       else (processOk s i before).order == i.order) = true ∧
@@ -1154,7 +1208,7 @@ theorem C11_output_partial (s : Switches) (i : Input) (before : Nat) (h : i.orde
     unfold holdsExtra extraNames
     split <;> simp
 
-theorem C11_output (s : Switches) (i : Input) (before : Nat) (h : i.order.Nodup) (hc : covers i = true) :
+theorem C11_output (s : Switches) (i : Input) (before : Nat) (h : i.order.Nodup) :
     holdsOutput s i before (processOk s i before) = true := by
   obtain ⟨h1, h2, h3⟩ := C11_output_partial s i before h
   obtain ⟨e1, _, _⟩ := processOk_eq s i before
@@ -1164,14 +1218,14 @@ theorem C11_output (s : Switches) (i : Input) (before : Nat) (h : i.order.Nodup)
   by_cases hs : specRename s = true
   · simp only [hs, if_true, Bool.and_eq_true] at h1 ⊢
     refine ⟨h1, ?_⟩
-    rw [e1]; simp only [hs, if_true]; exact C11_distinct i h hc
+    rw [e1]; simp only [hs, if_true]; exact C11_distinct i h
   · simp only [hs, if_false, Bool.false_eq_true] at h1 ⊢
     exact h1
 
-/-- **C11 (whole call)**: for every font with distinct glyph names that are all known to the
-    post-processor, every switch combination and every previous 'post' format: an accepted input gives a
+/-- **C11 (whole call)**: for every font with distinct glyph names, every glyph set (sourced or not),
+    every switch combination and every previous 'post' format: an accepted input gives a
     result, and that result satisfies the property predicate. -/
-theorem C11_process (s : Switches) (i : Input) (before : Nat) (h : i.order.Nodup) (hc : covers i = true)
+theorem C11_process (s : Switches) (i : Input) (before : Nat) (h : i.order.Nodup)
     (ha : accepts s i = true) :
     (∃ o, processGlyphNames s i before = .ok o) ∧
     holdsProcess s i before (processGlyphNames s i before) = true := by
@@ -1181,7 +1235,7 @@ theorem C11_process (s : Switches) (i : Input) (before : Nat) (h : i.order.Nodup
     rcases ha with ha | ha <;> simp [ha]
   unfold processGlyphNames
   simp only [this, Bool.false_eq_true, if_false]
-  exact ⟨⟨_, rfl⟩, C11_output s i before h hc⟩
+  exact ⟨⟨_, rfl⟩, C11_output s i before h⟩
 
 /-- **C11_reject**: inputs outside the accepted domain (renaming requested, a source glyph name outside
     Latin-1) are rejected with the encoding error, and the predicate accepts exactly that. -/
@@ -1262,17 +1316,18 @@ theorem uniName_spec (v : Nat) :
 theorem C11_legal (i : Input) (h : i.order.Nodup) :
     ∀ p ∈ covered i (finalOrder i), legalName p.2 = true := by
   have := C11_renamed i h
-  simp only [holdsRenamed, Bool.and_eq_true, all_eq_true] at this
+  simp only [holdsRenamed, holdsRenamedFrom, Bool.and_eq_true, all_eq_true] at this
   exact this.2
 
 /-- **C11_source**: along the glyph order, every renamed glyph receives its candidate (`specCand`: the
     cleaned map entry / automatic name, or the cleaned source name when that is longer than 63) -
-    unchanged exactly when no earlier glyph received it, else with a numeric suffix that is unused -/
+    unchanged exactly when no earlier glyph received it and no unrenamed glyph bears it, else with a
+    numeric suffix that is unused -/
 theorem C11_source (i : Input) (h : i.order.Nodup) :
-    okAll [] ((covered i (finalOrder i)).map (fun p => specCand i p.1))
+    okAll (unrenamed i) ((covered i (finalOrder i)).map (fun p => specCand i p.1))
       ((covered i (finalOrder i)).map (·.2)) = true := by
   have := C11_renamed i h
-  simp only [holdsRenamed, Bool.and_eq_true] at this
+  simp only [holdsRenamed, holdsRenamedFrom, Bool.and_eq_true] at this
   exact this.1.2
 
 /-! ### non-vacuity: the hypotheses are met by concrete, non-trivial inputs and the functions compute
@@ -1294,6 +1349,17 @@ example : holdsRenamed exMap (finalOrder exMap) = true ∧ holdsDistinct (finalO
 example : holdsRenamed exMap [n ".notdef", n "x", n "x", n "x.1", n "ab", n "ab.1", n "c"] = false := by decide
 example : holdsRenamed exMap [n ".notdef", n "x", n "x.1", n "x.1.1", n "a-b", n "ab", n "c"] = false := by decide
 example : holdsRenamed exMap [n ".notdef", n "x.1", n "x", n "x.1.1", n "ab", n "ab.1", n "c"] = false := by decide
+
+/-- a synthesised '.notdef' that is not in the glyph set (variable builds): its name is reserved -/
+private def exUnsourced : Input :=
+  { order := [n ".notdef", n "a", n "b"], glyphSet := [(n "a", none), (n "b", none)],
+    psNames := some [(n "a", n ".notdef"), (n "b", n ".notdef")] }
+
+example : exUnsourced.order.Nodup ∧ covers exUnsourced = false := by decide
+example : finalOrder exUnsourced = [n ".notdef", n ".notdef.1", n ".notdef.2"] := by decide
+example : holdsRenamed exUnsourced (finalOrder exUnsourced) = true := by decide
+example : holdsRenamed exUnsourced (finalOrderOld exUnsourced) = false ∧
+    holdsDistinct (finalOrderOld exUnsourced) = false := by decide
 
 /-- automatic names: code points, suffixes, ligatures, a name colliding with a generated one -/
 private def exAuto : Input :=
